@@ -361,7 +361,7 @@ def tie_part(run, r, model, sim, cases, d):
                 if t >= len(ms):
                     break
                 if t >= len(steps_i):
-                    run.mismatch("tie:steps", {"case": c, "which": which}, "%d steps" % len(steps_i), "%d steps" % len(ms))
+                    run.mismatch("steps", {"case": c, "which": which}, "%d steps" % len(steps_i), "%d steps" % len(ms))
                     break
                 ic = impl_canonical(c, steps_i[t], t)
                 mc = ms[t]
@@ -369,11 +369,11 @@ def tie_part(run, r, model, sim, cases, d):
                     ic.pop("ITEMS", None); ic.pop("BITEMS", None); mc = dict(mc); mc.pop("ITEMS", None); mc.pop("BITEMS", None)
                 if ic.get("err") == "1" or mc.get("err") == "1":
                     if ic.get("err") != mc.get("err"):
-                        run.mismatch("tie:error", {"case": c, "which": which, "step": t}, ic, mc)
+                        run.mismatch("error-class", {"case": c, "which": which, "step": t}, ic, mc)
                     break
                 bad = [q for q in mc if ic.get(q) != mc[q]]
                 if bad:
-                    comp = "tie:items" if "ITEMS" in bad or "BITEMS" in bad else ("tie:evaluated" if "EV" in bad or "CVC" in bad else "tie:values")
+                    comp = "items:smp-vs-serial" if "ITEMS" in bad or "BITEMS" in bad else ("evaluated:smp-vs-serial" if "EV" in bad or "CVC" in bad else "values:smp-vs-serial")
                     run.mismatch(comp, {"case": c, "which": which, "step": t, "fields": bad},
                                  {q: ic.get(q) for q in bad}, {q: mc[q] for q in bad})
                     break
@@ -605,36 +605,48 @@ def rich_part(run, r, sim, cases, d, env=None):
 # ------------------------------------------------------------------------------------------------
 # log indentation (C12_log_depth_refuted): a component that logs while it is evaluated on a worker thread
 # ------------------------------------------------------------------------------------------------
-def depth_scenario(smp, nt, logf):
-    L = ["natoms 4", "smp %s %d" % (smp, nt), "perm 0 1", "assign 1 1", "new", "log %s" % logf, "config EOF",
-         "colvar {", "  name d", "  distance {", "    debugGradients on", "    group1 { atomNumbers 1 2 }", "    group2 { atomNumbers 3 4 }", "  }", "}",
-         "EOF", "pos 1 0 0 0", "pos 2 1 0 0", "pos 3 0 2 0", "pos 4 0 2 3", "step", "endcase 0"]
+def depth_scenario(smp, logf):
+    L = ["natoms 8", "smp %s 2" % smp, "perm 0 1", "assign 0 1", "new", "log %s" % logf, "config EOF"]
+    for v in range(2):
+        L += ["colvar {", "  name d%d" % v, "  distance {", "    debugGradients on", "    group1 { atomNumbers %d %d }" % (4 * v + 1, 4 * v + 2),
+              "    group2 { atomNumbers %d %d }" % (4 * v + 3, 4 * v + 4), "  }", "}"]
+    L += ["EOF"]
+    for v in range(2):
+        L += ["pos %d 0 0 0" % (4 * v + 1), "pos %d 1 0 0" % (4 * v + 2), "pos %d 0 2 0" % (4 * v + 3), "pos %d 0 2 3" % (4 * v + 4)]
+    L += ["step", "endcase 0"]
     return L
 
 
 def depth_part(run, sim, d):
+    """messages logged by components while they are evaluated inside the library's own OpenMP smp_loop (two items, two
+    threads: item 1 runs on thread 1) and inside the std::thread executor must be indented as in the serial run"""
     res = {}
-    for smp, nt in (("serial", 1), ("perm", 2)):
+    for smp in ("serial", "omp", "perm"):
         lf = os.path.join(d, "depth_%s.log" % smp)
-        V.run_lines(sim, depth_scenario(smp, nt, lf), cwd=d)
-        lines = [l for l in open(lf).read().split("\n") if "ebugging gradients" in l or "gradient" in l.lower()] if os.path.exists(lf) else []
-        res[smp] = lines
-    run.dist("depth:witness replay")
-    a, b = res["serial"], res["perm"]
-    if a and b and len(a) == len(b):
-        ia = [len(l) - len(l.lstrip(" ")) for l in a]
-        ib = [len(l) - len(l.lstrip(" ")) for l in b]
-        run.count("depth-witness", True)
-        if ia != ib and [l.strip() for l in a] == [l.strip() for l in b]:
-            run.violation("log-depth:worker-thread-indentation",
-                          "debugGradients messages of a component evaluated on worker thread 1 are indented by %s spaces, serially by %s spaces" % (sorted(set(ib)), sorted(set(ia))),
-                          {"kind": "depth", "scenario": depth_scenario("perm", 2, "depth.log")})
-        else:
-            run.notes.append("log-depth witness (C12_log_depth_refuted) is no longer exhibited by the implementation")
-            if ia == ib:
-                run.mismatch("log-depth", {"scenario": depth_scenario("perm", 2, "depth.log")}, "same indentation %s" % ia[:3], "model: one level less on worker threads")
-    else:
-        run.notes.append("log-depth witness produced no comparable log lines (%d vs %d)" % (len(a), len(b)))
+        if os.path.exists(lf):
+            os.remove(lf)
+        V.run_lines(sim, depth_scenario(smp, lf), cwd=d, env={"OMP_NUM_THREADS": "2", "OMP_SCHEDULE": "static", "OMP_DYNAMIC": "false"})
+        txt = open(lf).read() if os.path.exists(lf) else ""
+        # the messages of the step only (after the configuration was read), non-empty lines
+        txt = txt[txt.rfind("Collective variables module (re)initialized"):] if "Collective variables module (re)initialized" in txt else txt
+        res[smp] = sorted((len(l) - len(l.lstrip(" ")), l.strip()) for l in txt.split("\n") if "radient" in l or "dx" in l)
+    run.dist("depth:scenarios", 3)
+    a = res["serial"]
+    if not a:
+        run.notes.append("log-depth scenario produced no component messages")
+        return
+    run.count("depth-scenario", True)
+    for smp in ("omp", "perm"):
+        b = res[smp]
+        if sorted(t for _, t in a) != sorted(t for _, t in b):
+            run.notes.append("log-depth scenario: different message texts under %s (%d vs %d lines); indentation not compared" % (smp, len(b), len(a)))
+            continue
+        if a != b:
+            ia, ib = sorted(set(i for i, _ in a)), sorted(set(i for i, _ in b))
+            sig = "log-depth:worker-thread-indentation" if smp == "omp" else "log-depth:executor"
+            run.violation(sig, "debugGradients messages of two components evaluated under smp %s with 2 threads are indented by %s spaces, serially by %s spaces "
+                          "(messages of the item that ran on thread 1 are indented one level less)" % (smp, ib, ia),
+                          {"kind": "depth", "scenario": depth_scenario(smp, "depth.log")})
 
 
 # ------------------------------------------------------------------------------------------------
